@@ -1,0 +1,19 @@
+//! Key helpers for the encrypted-connection checks (C18): public keys for generated secret keys.
+//! CURVE (crypto_box) and Noise_XX_25519 both use X25519 key pairs.
+
+/// Public key of a CURVE secret key, derived exactly as `CurveHandshake::new` does
+/// (`dryoc::keypair::StackKeyPair::from_secret_key`).
+#[cfg(feature = "curve")]
+pub fn curve_public_key(sk: &[u8; 32]) -> [u8; 32] {
+  use dryoc::keypair::StackKeyPair as Keypair;
+  use dryoc::types::ByteArray;
+  let kp = Keypair::from_secret_key((*sk).into());
+  *kp.public_key.as_array()
+}
+
+/// Public key of a Noise static secret key (x25519, the DH of `Noise_XX_25519_ChaChaPoly_BLAKE2s`).
+#[cfg(feature = "noise_xx")]
+pub fn noise_public_key(sk: &[u8; 32]) -> [u8; 32] {
+  let secret = x25519_dalek::StaticSecret::from(*sk);
+  x25519_dalek::PublicKey::from(&secret).to_bytes()
+}
